@@ -2,7 +2,7 @@
    Known finding K1 (KNOWN_FINDINGS.txt): the decoder keeps only the LAST subscription identifier of a
    PUBLISH (pub_subid = plast 11), so a PUBLISH carrying two or more identifiers reaches one stream
    only; the theorems below are about the identifier the context dispatches on. *)
-From Poster Require Import Model.Sim Proofs.ClientP Proofs.HandshakeP Proofs.StreamP Proofs.QuotaP Proofs.ResumeP Proofs.SimInvP Proofs.SettleP Proofs.RefineP Proofs.OwnP Proofs.TraceP.
+From Poster Require Import Model.Sim Proofs.ClientP Proofs.HandshakeP Proofs.StreamP Proofs.QuotaP Proofs.ResumeP Proofs.SimInvP Proofs.SettleP Proofs.RefineP Proofs.OwnP Proofs.TraceP Proofs.BoundaryP.
 
 (* dispatch: the packet value itself (topic, payload, QoS, flags, properties untouched) is appended
    to the buffer of the stream registered under the identifier; no other stream changes; the
@@ -96,3 +96,24 @@ Theorem C07_after_poll : forall (s : sys) (sid j : N) (st : strm),
   await_rel (c (settle s)) = fold_left spec_aw_step (pkts evs) (await_rel (c s)).
 Proof. exact stream_after_poll. Qed.
 Print Assumptions C07_after_poll.
+
+(* ---- the boundaries of a connection (Proofs/BoundaryP.v): what ends a connection does not end a stream. Handling the user's
+   DISCONNECT (any request that awaits no acknowledgement; refused, failed or written), run() returning with any result, and
+   set_up() installing the next transport leave the subscription table and every stream - buffer, sender, receiver - exactly
+   as they were; a CONNACK leaves the subscription table alone. What does close stream senders: the Context's departure
+   (C14_drop_closes_streams) and the expiry of the session found by the next run() (C17_expired). *)
+Theorem C07_streams_survive_user_disconnect : forall (s : sys) (i : N) (pkt : bytes),
+  subs (c (fst (handle_message s (MFire i pkt)))) = subs (c s) /\ streams (fst (handle_message s (MFire i pkt))) = streams s.
+Proof. exact fire_keeps_streams. Qed.
+Print Assumptions C07_streams_survive_user_disconnect.
+Theorem C07_streams_survive_run_exit : forall (s : sys) (r : runres),
+  subs (c (exit_run s r)) = subs (c s) /\ streams (exit_run s r) = streams s.
+Proof. exact exit_keeps_streams. Qed.
+Print Assumptions C07_streams_survive_run_exit.
+Theorem C07_streams_survive_set_up : forall s : sys,
+  subs (c (fst (step s EReconnect))) = subs (c s) /\ streams (fst (step s EReconnect)) = streams s.
+Proof. exact set_up_keeps_streams. Qed.
+Print Assumptions C07_streams_survive_set_up.
+Theorem C07_connack_keeps_subscriptions : forall (x : ctx) (p : rxpkt), subs (handle_connack x p) = subs x.
+Proof. exact connack_keeps_subs. Qed.
+Print Assumptions C07_connack_keeps_subscriptions.
